@@ -13,6 +13,8 @@ try:
 except FileNotFoundError:
     pass
 hooks = json.load(open(os.path.join(ROOT, "tools", "hooks.json")))
+ENABLED = set(open(os.path.join(ROOT, 'tools', 'reg', 'ENABLED')).read().split())
+REG = {k: v for k, v in REG.items() if k in ENABLED}
 checks, engines, na = [], {}, []
 for p in props:
     i = p["id"]
